@@ -16,6 +16,7 @@ package redis
 
 import (
 	"errors"
+	"fmt"
 	"strconv"
 	"strings"
 	"time"
@@ -134,6 +135,9 @@ func (server *Server) registerCoreExecutors() {
 		ttl, err := nextIntegerArgument(cmd, "ttl", args)
 		if err != nil {
 			return nil, err
+		}
+		if ttl < -maxExpireSeconds || maxExpireSeconds < ttl {
+			return nil, newInvalidArgumentError(cmd, "ttl", fmt.Errorf(errorShouldBeLessThanInt, "ttl", maxExpireSeconds))
 		}
 		ttlTime := time.Now().Add(time.Duration(ttl) * time.Second)
 		opt, err := nextExpireArgument(cmd, ttlTime, args)
